@@ -13,14 +13,14 @@ confirm_logs, eval_logs = args[1:sep], args[sep + 1:]
 results = {}
 for f in confirm_logs:
     for l in open(f):
-        m = re.match(r'RESULT (C\d+b?)/(\d) (.*)', l)
+        m = re.match(r'RESULT (C\d+[a-z]?)/(\d) (.*)', l)
         if m:
             results[f'{m.group(1)}/{m.group(2)}'] = l.strip()
 caught = {}
 for f in eval_logs:
     cur = None
     for l in open(f):
-        m = re.match(r'#### (C\d+b?/\d)', l)
+        m = re.match(r'#### (C\d+[a-z]?/\d)', l)
         if m:
             cur = m.group(1)
             caught[cur] = {'exit': None, 'sigs': []}
@@ -54,7 +54,7 @@ for key, d in descr.items():
         shutil.copy(f'{src}/{fn}', f'{dst}/{fn}')
     if d.get('src'):
         shutil.copy(f'/tmp/seed-{p}/out/{k}/patch.diff', f'{dst}/patch.orig.diff')
-    prop = p.rstrip('b')
+    prop = p[:3]
     feat = ' --features verif' if d.get('features') else ''
     meta = {
         'property': prop,
